@@ -196,8 +196,23 @@ theorem order_step (cfg : Cfg) (s s' : State) (i : Step) (h : OrderInv s) (hs : 
       · rename_i m hcur
         have hact : dd.active = true := by simp [Disp.active, hcur]
         rw [held_single_self s.disp d dd hdd ha hact] at hp
-        split at hs1 <;> cases hs1 <;> simp only <;> rw [held_single s.disp d dd _ hdd ha hact] <;>
-          simp [Disp.unstarted, hcur] at hp ⊢ <;> exact hp
+        split at hs1
+        · cases hs1
+        · split at hs1 <;> cases hs1 <;> simp only <;> rw [held_single s.disp d dd _ hdd ha hact] <;>
+            simp [Disp.unstarted, hcur] at hp ⊢ <;> exact hp
+      · cases hs1
+    · cases hs1
+  case put d =>
+    split at hs1
+    · rename_i dd hdd
+      split at hs1
+      · rename_i m hcur
+        have hact : dd.active = true := by simp [Disp.active, hcur]
+        rw [held_single_self s.disp d dd hdd ha hact] at hp
+        split at hs1
+        · split at hs1 <;> cases hs1 <;> simp only <;> rw [held_single s.disp d dd _ hdd ha hact] <;>
+            simp [Disp.unstarted, hcur] at hp ⊢ <;> exact hp
+        · cases hs1
       · cases hs1
     · cases hs1
   case finish d =>
@@ -302,11 +317,27 @@ theorem patch_step (cfg : Cfg) (hp : cfg.patched = true) (s s' : State) (i : Ste
       · rename_i dd hdd
         split at hs1
         · rename_i m hcur
-          split at hs1 <;> cases hs1 <;> simp only
-          · have := countP_set_le Disp.active s.disp d dd { dd with cur := none } hdd (by simp [Disp.active, hcur])
-            exact ⟨fun hu => by have := hd hu; omega, by omega⟩
-          · have := countP_set_le Disp.active s.disp d dd { dd with cur := some (m, true) } hdd (by simp [Disp.active, hcur])
-            exact ⟨fun hu => by have := hd hu; omega, by omega⟩
+          split at hs1
+          · cases hs1
+          · split at hs1 <;> cases hs1 <;> simp only
+            · have := countP_set_le Disp.active s.disp d dd { dd with routing := true } hdd (by simp [Disp.active, hcur])
+              exact ⟨fun hu => by have := hd hu; omega, by omega⟩
+            · have := countP_set_le Disp.active s.disp d dd { dd with cur := some (m, true) } hdd (by simp [Disp.active, hcur])
+              exact ⟨fun hu => by have := hd hu; omega, by omega⟩
+        · cases hs1
+      · cases hs1
+    case put d =>
+      split at hs1
+      · rename_i dd hdd
+        split at hs1
+        · rename_i m hcur
+          split at hs1
+          · split at hs1 <;> cases hs1 <;> simp only
+            · have := countP_set_le Disp.active s.disp d dd { dd with cur := none, routing := false } hdd (by simp [Disp.active, hcur])
+              exact ⟨fun hu => by have := hd hu; omega, by omega⟩
+            · have := countP_set_le Disp.active s.disp d dd { dd with cur := none, routing := false } hdd (by simp [Disp.active, hcur])
+              exact ⟨fun hu => by have := hd hu; omega, by omega⟩
+          · cases hs1
         · cases hs1
       · cases hs1
     case finish d =>
@@ -351,5 +382,200 @@ theorem frame_step (cfg : Cfg) (s s' : State) (i : Step) (h : FrameInv s) (hs : 
   obtain ⟨s1, hs1, rfl⟩ := step_mark hs
   show s1.up = false → s1.stale = 0
   cases i <;> simp only [step0] at hs1 <;> (repeat' (split at hs1)) <;> cases hs1 <;> simp_all [FrameInv]
+
+/-! ### the window between the `in _response_queues` test and `put_nowait` -/
+
+def Ended (s : State) (k : Int) : Prop := ∃ c, (s.callers c).pc = .done ∧ (s.callers c).id = k
+
+/-- a dispatcher between test and put holds a message whose system bytes are registered, or belonged to a caller that has left
+`send_and_waitfor_response`; a message is only ever lost (KeyError) in the second case; with reply-only routing no primary gets there -/
+structure LossInv (cfg : Cfg) (s : State) : Prop where
+  pend : ∀ d ∈ s.disp, d.routing = true → ∃ m, d.cur = some (m, false) ∧
+    ((∃ c, s.reg m.sys = some c) ∨ Ended s m.sys) ∧ (cfg.replyOnly = true → m.primary = false)
+  lostDone : ∀ m ∈ s.lost, Ended s m.sys ∧ (cfg.replyOnly = true → m.primary = false)
+  prim : cfg.replyOnly = true → ∀ e ∈ s.handled, e.1.primary = true → e.2 = false
+
+theorem loss_init (cfg : Cfg) : LossInv cfg (init cfg) := by
+  constructor <;> simp [init]
+
+/-- steps that leave the dispatcher list, the lost list and the handled log alone: enough that registered/ended keys stay so -/
+theorem loss_frame (cfg : Cfg) (s s' : State) (h : LossInv cfg s) (hd : s'.disp = s.disp) (hl : s'.lost = s.lost) (hh : s'.handled = s.handled)
+    (hk : ∀ k, ((∃ c, s.reg k = some c) ∨ Ended s k) → ((∃ c, s'.reg k = some c) ∨ Ended s' k))
+    (he : ∀ k, Ended s k → Ended s' k) : LossInv cfg s' := by
+  obtain ⟨h1, h2, h3⟩ := h
+  refine ⟨?_, ?_, by rw [hh]; exact h3⟩
+  · intro d hdm hrt
+    rw [hd] at hdm
+    obtain ⟨m, hc, hr, hp⟩ := h1 d hdm hrt
+    exact ⟨m, hc, hk _ hr, hp⟩
+  · intro m hm
+    rw [hl] at hm
+    exact ⟨he _ (h2 m hm).1, (h2 m hm).2⟩
+
+theorem ended_step0 (cfg : Cfg) (s s' : State) (i : Step) (hs : step0 cfg s i = some s') : ∀ k, Ended s k → Ended s' k := by
+  cases i <;> simp only [step0] at hs <;> (repeat' (split at hs)) <;> cases hs <;>
+    (intro k ⟨c', h1, h2⟩; exact ⟨c', by grind [upd], by grind [upd]⟩)
+
+theorem reg_step0 (cfg : Cfg) (s s' : State) (i : Step) (hs : step0 cfg s i = some s') :
+    ∀ k, ((∃ c, s.reg k = some c) ∨ Ended s k) → ((∃ c, s'.reg k = some c) ∨ Ended s' k) := by
+  intro k hk
+  rcases hk with ⟨c0, hc0⟩ | he
+  · cases i <;> simp only [step0] at hs
+    case unregister c =>
+      (repeat' (split at hs)) <;> cases hs
+      · by_cases e : k = (s.callers c).id
+        · exact Or.inr ⟨c, by simp [upd], by simp [upd, e]⟩
+        · exact Or.inl ⟨c0, by simp [upd, e, hc0]⟩
+      · exact Or.inl ⟨c0, hc0⟩
+    case register c =>
+      (repeat' (split at hs)) <;> cases hs
+      by_cases e : k = (s.callers c).id
+      · exact Or.inl ⟨c, by simp [upd, e]⟩
+      · exact Or.inl ⟨c0, by simp [upd, e, hc0]⟩
+    all_goals ((repeat' (split at hs)) <;> cases hs <;> exact Or.inl ⟨c0, hc0⟩)
+  · exact Or.inr (ended_step0 cfg s s' i hs k he)
+
+theorem loss_step0 (cfg : Cfg) (s s' : State) (i : Step) (h : LossInv cfg s) (hs : step0 cfg s i = some s') : LossInv cfg s' := by
+  have hE := ended_step0 cfg s s' i hs
+  have hR := reg_step0 cfg s s' i hs
+  obtain ⟨h1, h2, h3⟩ := h
+  have keep : ∀ d ∈ s.disp, d.routing = true → ∃ m, d.cur = some (m, false) ∧
+      ((∃ c, s'.reg m.sys = some c) ∨ Ended s' m.sys) ∧ (cfg.replyOnly = true → m.primary = false) := by
+    intro d hd hrt
+    obtain ⟨m, hc, hr, hp⟩ := h1 d hd hrt
+    exact ⟨m, hc, hR _ hr, hp⟩
+  have keepLost : ∀ m ∈ s.lost, Ended s' m.sys ∧ (cfg.replyOnly = true → m.primary = false) :=
+    fun m hm => ⟨hE _ (h2 m hm).1, (h2 m hm).2⟩
+  cases i <;> simp only [step0] at hs
+  case pop d =>
+    split at hs
+    · rename_i dd m rest hdd hin
+      split at hs
+      · rename_i hc
+        cases hs
+        refine ⟨?_, keepLost, h3⟩
+        intro d' hd' hrt
+        rcases List.mem_or_eq_of_mem_set hd' with hm | hm
+        · exact keep d' hm hrt
+        · subst hm
+          have hin' : dd ∈ s.disp := List.mem_of_getElem? hdd
+          obtain ⟨m0, hc0, _⟩ := h1 dd hin' hrt
+          rw [hc.2] at hc0; cases hc0
+      · cases hs
+    · cases hs
+  case handle d =>
+    split at hs
+    · rename_i dd hdd
+      split at hs
+      · rename_i m hcur
+        split at hs
+        · cases hs
+        · rename_i hnr
+          split at hs
+          · rename_i c0 hreg
+            cases hs
+            refine ⟨?_, keepLost, h3⟩
+            intro d' hd' hrt
+            rcases List.mem_or_eq_of_mem_set hd' with hm | hm
+            · exact keep d' hm hrt
+            · subst hm
+              refine ⟨m, hcur, ?_, ?_⟩
+              · by_cases hp : (cfg.replyOnly && m.primary) = true
+                · simp [hp] at hreg
+                · simp only [hp] at hreg; exact Or.inl ⟨c0, by simpa using hreg⟩
+              · intro hro
+                by_cases hp : m.primary = true
+                · simp [hro, hp] at hreg
+                · simpa using hp
+          · rename_i hreg
+            cases hs
+            refine ⟨?_, keepLost, ?_⟩
+            · intro d' hd' hrt
+              rcases List.mem_or_eq_of_mem_set hd' with hm | hm
+              · exact keep d' hm hrt
+              · subst hm
+                simp only at hrt
+                exact absurd hrt hnr
+            · intro hro e he hpe
+              rcases List.mem_append.mp he with he | he
+              · exact h3 hro e he hpe
+              · simp only [List.mem_singleton] at he; subst he; rfl
+      · cases hs
+    · cases hs
+  case put d =>
+    split at hs
+    · rename_i dd hdd
+      have hin' : dd ∈ s.disp := List.mem_of_getElem? hdd
+      split at hs
+      · rename_i m hcur
+        split at hs
+        · rename_i hrt0
+          obtain ⟨m0, hc0, hr0, hp0⟩ := h1 dd hin' hrt0
+          rw [hcur] at hc0; cases hc0
+          have hdisp : ∀ d' ∈ s.disp.set d { dd with cur := none, routing := false }, d'.routing = true → ∃ m, d'.cur = some (m, false) ∧
+              ((∃ c, s'.reg m.sys = some c) ∨ Ended s' m.sys) ∧ (cfg.replyOnly = true → m.primary = false) := by
+            intro d' hd' hrt
+            rcases List.mem_or_eq_of_mem_set hd' with hm | hm
+            · exact keep d' hm hrt
+            · subst hm; simp at hrt
+          have hprim : cfg.replyOnly = true → ∀ e ∈ s.handled ++ [(m, true)], e.1.primary = true → e.2 = false := by
+            intro hro e he hpe
+            rcases List.mem_append.mp he with he | he
+            · exact h3 hro e he hpe
+            · simp only [List.mem_singleton] at he; subst he
+              have := hp0 hro; simp only at hpe; rw [this] at hpe; cases hpe
+          split at hs
+          · cases hs; exact ⟨hdisp, keepLost, hprim⟩
+          · rename_i hnone
+            cases hs
+            refine ⟨hdisp, ?_, hprim⟩
+            intro m' hm'
+            rcases List.mem_append.mp hm' with hm' | hm'
+            · exact keepLost m' hm'
+            · simp only [List.mem_singleton] at hm'; subst hm'
+              refine ⟨?_, hp0⟩
+              rcases hr0 with ⟨c, hc⟩ | he
+              · rw [hnone] at hc; cases hc
+              · exact he
+        · cases hs
+      · cases hs
+    · cases hs
+  case finish d =>
+    split at hs
+    · rename_i dd hdd
+      have hin' : dd ∈ s.disp := List.mem_of_getElem? hdd
+      split at hs
+      · rename_i m hcur
+        cases hs
+        refine ⟨?_, keepLost, h3⟩
+        intro d' hd' hrt
+        rcases List.mem_or_eq_of_mem_set hd' with hm | hm
+        · exact keep d' hm hrt
+        · subst hm
+          obtain ⟨m0, hc0, _⟩ := h1 dd hin' hrt
+          rw [hcur] at hc0; cases hc0
+      · cases hs
+    · cases hs
+  case linkDown =>
+    split at hs
+    · cases hs
+      refine ⟨?_, keepLost, h3⟩
+      intro d' hd' hrt
+      split at hd'
+      · obtain ⟨d0, hd0, rfl⟩ := List.mem_map.mp hd'
+        exact keep d0 hd0 hrt
+      · exact keep d' hd' hrt
+    · cases hs
+  case linkUp =>
+    split at hs
+    · cases hs
+    · cases hs
+      refine ⟨?_, keepLost, h3⟩
+      intro d' hd' hrt
+      rcases List.mem_append.mp hd' with hm | hm
+      · exact keep d' hm hrt
+      · simp only [List.mem_singleton] at hm; subst hm; simp at hrt
+  all_goals ((repeat' (split at hs)) <;> cases hs <;> exact ⟨keep, keepLost, h3⟩)
+
 
 end SecsModel.Proofs.Txn
